@@ -250,6 +250,7 @@ def run_long_axis(case):
         OffDiagonalElasticModulusPhononContribution as Off,
     )
     n, axis = case["n"], case["axis"]
+    ad, pfx = bool(case.get("adiabatic")), case.get("prefix", "c01")      # C02 re-uses this case for the adiabatic values
     base = dict(HIST_SPECS[0])
     if axis == "T":
         grid = [2600.0 * (k / float(n)) ** 1.3 for k in range(n)]          # T = 0 first, strictly increasing
@@ -268,12 +269,14 @@ def run_long_axis(case):
             obj = (Long if i == j else Off)(duck, (e[:, i], e[:, j]))
             full[(i, j)] = (numpy.array(obj.zero_point_contribution, float), numpy.array(obj.thermal_contribution, float),
                             numpy.array(obj.value_isothermal, float))
+            if ad:
+                full[(i, j)] += (numpy.array(obj.value_adiabatic, float),)
         except Exception as ex:
             seam_guard(ex)
             viol.append(V(f"c01:long-axis:raises:{type(ex).__name__}", f"{axis} axis of {n} points: component ({i + 1},{j + 1}) raised {ex!r}"))
     if viol:
         return {"viol": viol, "nontrivial": True, "outcome": viol[0]["sig"]}
-    for (i, j), (zp, th, val) in full.items():
+    for (i, j), (zp, th, val, *_ad) in full.items():
         if zp.shape != (len(v),) or th.shape != (len(t), len(v)) or val.shape != (len(t), len(v)):
             viol.append(V("c01:long-axis:shape", f"{axis} axis of {n} points: shapes zp {zp.shape} th {th.shape} val {val.shape}"))
         elif not (numpy.all(numpy.isfinite(th)) and numpy.all(numpy.isfinite(val)) and numpy.all(numpy.isfinite(zp))):
@@ -286,18 +289,26 @@ def run_long_axis(case):
         b2 = dict(base)
         b2["tgrid" if axis == "T" else "vgrid"] = grid[sl]
         d2, _, _, t2, v2 = D.build(spec_of(b2))
-        for (i, j), (zp, th, val) in full.items():
+        for (i, j), (zp, th, val, *_ad) in full.items():
             es = e if axis == "T" else e[sl]
             o2 = (Long if i == j else Off)(d2, (es[:, i], es[:, j]))
             th2 = numpy.array(o2.thermal_contribution, float)
             val2 = numpy.array(o2.value_isothermal, float)
             zp2 = numpy.array(o2.zero_point_contribution, float)
             thf, valf, zpf = (th[sl], val[sl], zp) if axis == "T" else (th[:, sl], val[:, sl], zp[sl])
-            for name, x, y in (("thermal", thf, th2), ("value", valf, val2), ("zero_point", zpf, zp2)):
-                sc = numpy.abs(y).max() + 1e-300
+            trio = [("thermal", thf, th2), ("value", valf, val2), ("zero_point", zpf, zp2)]
+            if ad:
+                adv = numpy.array(o2.value_adiabatic, float)
+                trio = [("adiabatic", _ad[0][sl] if axis == "T" else _ad[0][:, sl], adv),
+                        ("adiabatic-gap", (_ad[0] - val)[sl] if axis == "T" else (_ad[0] - val)[:, sl], adv - val2)]
+            for name, x, y in trio:
+                sc = numpy.nanmax(numpy.abs(y)) + 1e-300 if name != "adiabatic-gap" else numpy.nanmax(numpy.abs(adv)) * 1e-3 + 1e-300
+                if x.shape == y.shape and ad:
+                    both_nan = numpy.isnan(x) & numpy.isnan(y)
+                    x, y = numpy.where(both_nan, 0.0, x), numpy.where(both_nan, 0.0, y)
                 if x.shape != y.shape or not numpy.all(numpy.abs(x - y) <= 1e-11 * sc):
                     bad = numpy.argwhere(~(numpy.abs(x - y) <= 1e-11 * sc))[0] if x.shape == y.shape else None
-                    viol.append(V(f"c01:long-axis:{axis}:{name}-depends-on-grid-length",
+                    viol.append(V(f"{pfx}:long-axis:{axis}:{name}-depends-on-grid-length",
                                   f"{name} c{i + 1}{j + 1} on a {axis} axis of {n} points differs at points {a}..{sl.stop - 1} (first at {None if bad is None else bad.tolist()}: "
                                   f"{None if bad is None else float(x[tuple(bad)])!r}) from the same points evaluated as a grid of {sl.stop - a} ({None if bad is None else float(y[tuple(bad)])!r})"))
                     break
@@ -306,11 +317,11 @@ def run_long_axis(case):
         if viol:
             break
     # (ii) free-energy reference at selected points of the long axis
-    if not viol:
+    if not viol and not ad:
         pick = sorted(set([0, 1, n // 2, n - 3, n - 2, n - 1]))
         tt, vv = (t[pick], v) if axis == "T" else (t, v[pick])
         ref = reference(laws, w, tt, vv)
-        for (i, j), (zp, th, val) in full.items():
+        for (i, j), (zp, th, val, *_ad) in full.items():
             ee = e if axis == "T" else e[pick]
             ei, ej = ee[:, i], ee[:, j]
             if i == j:
